@@ -165,10 +165,14 @@ impl<'a, P: ?Sized + PathImpl> PathMutImpl<'a, P> {
 
 		let is_empty = self.is_empty();
 
-		let modified = if (is_empty && self.is_relative() && !self.after_authority())
+		if (is_empty && self.is_relative() && !self.after_authority())
 			|| self.last().map(SegmentImpl::as_bytes) == Some(PARENT_SEGMENT)
 		{
 			self.push(<P::Segment as SegmentImpl>::PARENT);
+
+			#[cfg(iref_verif)]
+			span.exit(self.buffer);
+
 			true
 		} else if !is_empty {
 			let start = self.first_segment_offset();
@@ -180,15 +184,17 @@ impl<'a, P: ?Sized + PathImpl> PathMutImpl<'a, P> {
 
 			replace(self.buffer, i..self.end, &[]);
 			self.end = i;
+
+			#[cfg(iref_verif)]
+			span.exit(self.buffer);
+
 			true
 		} else {
+			#[cfg(iref_verif)]
+			span.exit(self.buffer);
+
 			false
-		};
-
-		#[cfg(iref_verif)]
-		span.exit(self.buffer);
-
-		modified
+		}
 	}
 
 	pub fn clear(&mut self) {
@@ -202,10 +208,11 @@ impl<'a, P: ?Sized + PathImpl> PathMutImpl<'a, P> {
 
 		let start = self.first_segment_offset();
 		replace(self.buffer, start..self.end, b"");
-		self.end = start;
 
 		#[cfg(iref_verif)]
 		span.exit(self.buffer);
+
+		self.end = start
 	}
 
 	/// Push the given segment to this path using the `.` and `..` segments
@@ -215,15 +222,7 @@ impl<'a, P: ?Sized + PathImpl> PathMutImpl<'a, P> {
 	/// followed by an empty segment when doing reference resolution.
 	#[inline]
 	pub fn symbolic_push(&mut self, segment: &P::Segment) -> bool {
-		#[cfg(iref_verif)]
-		let span = crate::verif_trace::enter::<P>(
-			"sym_push",
-			self.standalone,
-			self.buffer,
-			Some(segment.as_bytes()),
-		);
-
-		let open = match segment.as_bytes() {
+		match segment.as_bytes() {
 			CURRENT_SEGMENT => true,
 			PARENT_SEGMENT => {
 				self.pop();
@@ -236,12 +235,7 @@ impl<'a, P: ?Sized + PathImpl> PathMutImpl<'a, P> {
 
 				false
 			}
-		};
-
-		#[cfg(iref_verif)]
-		span.exit(self.buffer);
-
-		open
+		}
 	}
 
 	/// Append the given path to this path using the `.` and `..` segments semantics.
@@ -263,18 +257,7 @@ impl<'a, P: ?Sized + PathImpl> PathMutImpl<'a, P> {
 
 	#[inline]
 	pub fn normalize(&mut self) {
-		#[cfg(iref_verif)]
-		let span = crate::verif_trace::enter::<P>(
-			"normalize",
-			self.standalone,
-			self.buffer,
-			None,
-		);
-
-		self.remove_dot_segments(false);
-
-		#[cfg(iref_verif)]
-		span.exit(self.buffer);
+		self.remove_dot_segments(false)
 	}
 
 	/// Removes the dot segments of the path.
@@ -282,6 +265,18 @@ impl<'a, P: ?Sized + PathImpl> PathMutImpl<'a, P> {
 	/// If `trailing_slash` is `true`, a final dot segment leaves a trailing
 	/// `/` (an empty last segment) as in RFC 3986, section 5.2.4.
 	pub(crate) fn remove_dot_segments(&mut self, trailing_slash: bool) {
+		#[cfg(iref_verif)]
+		let span = crate::verif_trace::enter::<P>(
+			if trailing_slash {
+				"remove_dot_segments"
+			} else {
+				"normalize"
+			},
+			self.standalone,
+			self.buffer,
+			None,
+		);
+
 		let open = trailing_slash
 			&& matches!(
 				self.last().map(SegmentImpl::as_bytes),
@@ -305,6 +300,9 @@ impl<'a, P: ?Sized + PathImpl> PathMutImpl<'a, P> {
 			// A single empty segment is all that is left (`/./`, `a/../`):
 			// this is the directory itself, written `/` or ``
 			// (RFC 3986, section 5.2.4, rule B).
+			#[cfg(iref_verif)]
+			span.exit(self.buffer);
+
 			return;
 		}
 
@@ -318,5 +316,8 @@ impl<'a, P: ?Sized + PathImpl> PathMutImpl<'a, P> {
 		if open && !self.is_empty() {
 			self.push(<P::Segment as SegmentImpl>::EMPTY)
 		}
+
+		#[cfg(iref_verif)]
+		span.exit(self.buffer);
 	}
 }
